@@ -43,7 +43,12 @@
  * a line "C03-USED-AFTER-DISABLE <impl>:<entry point>... disabled=<list>" is
  * the last thing written to stderr.
  */
+#define _GNU_SOURCE	/* memfd_create */
 #include "vh.h"
+
+#include <sys/mman.h>
+#include <errno.h>
+#include <unistd.h>
 #include "wrapalloc.h"
 
 #include <signal.h>
@@ -446,6 +451,34 @@ parse_fail(const char * list)
 	}
 }
 
+/* One 2 MiB memory file mapped HUGE_NCHUNK times back to back (4 GiB + 2 MiB). */
+#define HUGE_CHUNK ((size_t)2 << 20)
+#define HUGE_NCHUNK ((size_t)2049)
+static uint8_t *
+huge_region(int fill)
+{
+	uint8_t * base;
+	size_t i;
+	int fd;
+
+	if ((fd = memfd_create("c03-huge", 0)) == -1)
+		vh_die("memfd_create: %s", strerror(errno));
+	if (ftruncate(fd, (off_t)HUGE_CHUNK))
+		vh_die("ftruncate: %s", strerror(errno));
+	if ((base = mmap(NULL, HUGE_NCHUNK * HUGE_CHUNK, PROT_NONE,
+	    MAP_PRIVATE | MAP_ANONYMOUS | MAP_NORESERVE, -1, 0)) == MAP_FAILED)
+		vh_die("mmap reserve: %s", strerror(errno));
+	for (i = 0; i < HUGE_NCHUNK; i++)
+		if (mmap(base + i * HUGE_CHUNK, HUGE_CHUNK, PROT_READ | PROT_WRITE,
+		    MAP_SHARED | MAP_FIXED, fd, 0) == MAP_FAILED)
+			vh_die("mmap window: %s", strerror(errno));
+	close(fd);
+	if (fill)
+		for (i = 0; i < HUGE_CHUNK; i++)
+			base[i] = (uint8_t)(i * 0x9E3779B1u >> 24);
+	return (base);
+}
+
 int
 main(int argc, char ** argv)
 {
@@ -680,6 +713,56 @@ main(int argc, char ** argv)
 			free(fi); free(fo);
 			vh_free(ref); vh_free(parts);
 			vh_free(kb); vh_free(data);
+		} else if (op[0] == 'G') {
+			/*
+			 * G <al> <key> <nonce> <extra>: ONE crypto_aesctr_stream
+			 * call of 2^32 + extra bytes (>= 2^28 blocks inside a single
+			 * call), then calls of 7, 16 and 77 bytes on the same stream.
+			 * The 4 GiB buffers are address ranges in which one 2 MiB
+			 * memory file is mapped over and over; answered are the last
+			 * 4096 bytes of the big call and the 100 bytes after it.
+			 */
+			size_t klen, j;
+			uint8_t * kb = vh_tok_hex(&L, 2, &klen);
+			uint64_t nonce = vh_tok_u(&L, 3);
+			size_t extra = (size_t)vh_tok_u(&L, 4);
+			size_t biglen = ((size_t)1 << 32) + extra;
+			uint8_t rk[REFAES_MAXRK];
+			struct crypto_aes_key * key;
+			struct crypto_aesctr * stream;
+			uint8_t * in, * out, * lib, * ref;
+			uint8_t sin[100];
+			int nr;
+
+			if ((klen != 16 && klen != 32) || L.ntok != 5 || extra >= HUGE_CHUNK)
+				vh_die("bad G line");
+			LIBALLOC(key = crypto_aes_key_expand(kb, klen));
+			if (key == NULL)
+				vh_die("crypto_aes_key_expand failed");
+			nr = refaes_expand(kb, klen, rk);
+			in = huge_region(1);
+			out = huge_region(0);
+			for (j = 0; j < sizeof(sin); j++)
+				sin[j] = (uint8_t)(j * 3 + 7);
+			lib = vh_xmalloc(4096 + 100);
+			ref = vh_xmalloc(4096 + 100);
+			LIBALLOC(stream = crypto_aesctr_init(key, nonce));
+			if (stream == NULL)
+				vh_die("crypto_aesctr_init failed");
+			crypto_aesctr_stream(stream, in, out, biglen);
+			memcpy(lib, out + (biglen - 4096), 4096);
+			crypto_aesctr_stream(stream, sin, lib + 4096, 7);
+			crypto_aesctr_stream(stream, sin + 7, lib + 4096 + 7, 16);
+			crypto_aesctr_stream(stream, sin + 23, lib + 4096 + 23, 77);
+			crypto_aesctr_free(stream);
+			refaes_ctr(rk, nr, nonce, biglen - 4096, in + (biglen - 4096),
+			    ref, 4096);
+			refaes_ctr(rk, nr, nonce, biglen, sin, ref + 4096, 100);
+			answer2(lib, ref, 4096 + 100);
+			crypto_aes_key_free(key);
+			munmap(in, HUGE_NCHUNK * HUGE_CHUNK);
+			munmap(out, HUGE_NCHUNK * HUGE_CHUNK);
+			vh_free(lib); vh_free(ref); vh_free(kb);
 		} else
 			vh_die("bad op %s", op);
 	}
